@@ -16,6 +16,8 @@ class _RT:
     fval = staticmethod(core.fval)
     rt_get = staticmethod(core.rt_get)
     rt_set = staticmethod(core.rt_set)
+    rt_str = staticmethod(core.rt_str)
+    rt_add = staticmethod(core.rt_add)
     setitem = staticmethod(core.setitem)
     rt_len = staticmethod(core.rt_len)
     rt_range = staticmethod(core.rt_range)
@@ -27,6 +29,7 @@ class _RT:
     rt_splitext = staticmethod(core.rt_splitext)
     rt_basename = staticmethod(core.rt_basename)
     ReShim = regex.ReShim
+    FunctoolsShim = core.FunctoolsShim
 
 
 RT = _RT()
@@ -70,11 +73,15 @@ class Rewriter(ast.NodeTransformer):
         f = node.func
         if isinstance(f, ast.Attribute) and f.attr == "join" and len(node.args) == 1 and not node.keywords:
             return ast.Call(func=_rt("join"), args=[f.value, node.args[0]], keywords=[])
+        if isinstance(f, ast.Attribute) and f.attr == "add" and len(node.args) == 1 and not node.keywords:
+            return ast.Call(func=_rt("rt_add"), args=[f.value, node.args[0]], keywords=[])
         if isinstance(f, ast.Attribute) and f.attr == "get" and len(node.args) in (1, 2) and not node.keywords:
             return ast.Call(func=_rt("rt_get"), args=[f.value] + node.args, keywords=[])
         if isinstance(f, ast.Name):
             if f.id == "len" and len(node.args) == 1:
                 return ast.Call(func=_rt("rt_len"), args=node.args, keywords=[])
+            if f.id == "str" and len(node.args) == 1 and not node.keywords:
+                return ast.Call(func=_rt("rt_str"), args=node.args, keywords=[])
             if f.id == "set" and len(node.args) <= 1 and not node.keywords:
                 return ast.Call(func=_rt("rt_set"), args=node.args, keywords=[])
             if f.id in ("enumerate", "range", "getattr", "print", "isinstance"):
@@ -100,14 +107,33 @@ class Rewriter(ast.NodeTransformer):
         return node
 
     def visit_Import(self, node):
-        if any(a.name == "re" for a in node.names):
+        if any(a.name in ("re", "functools") for a in node.names):
             out = []
             for a in node.names:
                 if a.name == "re":
                     out.append(ast.Assign(targets=[ast.Name(id=a.asname or "re", ctx=ast.Store())],
                                           value=ast.Call(func=_rt("ReShim"), args=[], keywords=[])))
+                elif a.name == "functools":
+                    out.append(ast.Assign(targets=[ast.Name(id=a.asname or "functools", ctx=ast.Store())],
+                                          value=ast.Call(func=_rt("FunctoolsShim"), args=[], keywords=[])))
                 else:
                     out.append(ast.Import(names=[a]))
+            return out
+        return node
+
+    def visit_ImportFrom(self, node):
+        # from functools import lru_cache, cache  ->  taken from the shim
+        if node.module == "functools" and node.level == 0:
+            out = []
+            rest = []
+            for a in node.names:
+                if a.name in ("lru_cache", "cache"):
+                    out.append(ast.Assign(targets=[ast.Name(id=a.asname or a.name, ctx=ast.Store())],
+                                          value=ast.Attribute(value=ast.Call(func=_rt("FunctoolsShim"), args=[], keywords=[]), attr=a.name, ctx=ast.Load())))
+                else:
+                    rest.append(a)
+            if rest:
+                out.insert(0, ast.ImportFrom(module="functools", names=rest, level=0))
             return out
         return node
 
